@@ -1004,8 +1004,47 @@ func (n *dnode) invKey(t dtype, key string) string {
 		switch errClass(string(pv.b)) {
 		case "keylen", "table", "tablelen", "nskey":
 			return ""
+		case "batchsize":
+			// above 5000 elements the unbounded enumerating reads are refused; count by pages where a paged read exists
+			switch t {
+			case tList:
+				ll, _ := in(one(n.rd("llen", key)))
+				cnt := 0
+				for lo := 0; ; lo += 4000 {
+					pg, ok := bulks(one(n.rd("lrange", key, strconv.Itoa(lo), strconv.Itoa(lo+3999))))
+					if !ok {
+						return bad("read-error")
+					}
+					cnt += len(pg)
+					if len(pg) < 4000 {
+						break
+					}
+				}
+				if int(ll) != cnt {
+					return bad("llen=%d paged-lrange=%d", ll, cnt)
+				}
+			case tZSet:
+				zc, _ := in(one(n.rd("zcard", key)))
+				cnt := 0
+				for lo := 0; ; lo += 4000 {
+					pg, ok := bulks(one(n.rd("zrange", key, strconv.Itoa(lo), strconv.Itoa(lo+3999))))
+					if !ok {
+						return bad("read-error")
+					}
+					cnt += len(pg)
+					if len(pg) < 4000 {
+						break
+					}
+				}
+				if int(zc) != cnt {
+					return bad("zcard=%d paged-zrange=%d", zc, cnt)
+				}
+			}
+			return ""
 		}
 	}
+	// point lookups of every element are quadratic on the engines' read path: above 400 elements a sample is checked
+	sampled := func(n int, i int) bool { return n <= 400 || i%(n/200+1) == 0 || i >= n-3 }
 	switch t {
 	case tHash:
 		hl, ok1 := in(one(n.rd("hlen", key)))
@@ -1031,6 +1070,9 @@ func (n *dnode) invKey(t dtype, key string) string {
 			return bad("hkeyexist=%d size=%d", ex, hl)
 		}
 		for i, f := range hk {
+			if !sampled(len(hk), i) {
+				continue
+			}
 			g := one(n.read([][]byte{[]byte("hget"), []byte(key), f}))
 			if g.k != 'b' || !bytes.Equal(g.b, hv[i]) {
 				return bad("unreachable-hget %s", hexs(f))
@@ -1056,7 +1098,10 @@ func (n *dnode) invKey(t dtype, key string) string {
 		if (ex == 1) != (sc > 0) || (ex != 0 && ex != 1) {
 			return bad("skeyexist=%d size=%d", ex, sc)
 		}
-		for _, m := range sm {
+		for i, m := range sm {
+			if !sampled(len(sm), i) {
+				continue
+			}
 			e, _ := in(one(n.read([][]byte{[]byte("sismember"), []byte(key), m})))
 			if e != 1 {
 				return bad("unreachable-sismember %s", hexs(m))
@@ -1076,6 +1121,9 @@ func (n *dnode) invKey(t dtype, key string) string {
 			return bad("lkeyexist=%d size=%d", ex, ll)
 		}
 		for i, e := range lr {
+			if !sampled(len(lr), i) {
+				continue
+			}
 			g := one(n.rd("lindex", key, strconv.Itoa(i)))
 			if g.k != 'b' || !bytes.Equal(g.b, e) {
 				return bad("unreachable-lindex %d", i)
@@ -1117,6 +1165,9 @@ func (n *dnode) invKey(t dtype, key string) string {
 			return bad("zkeyexist=%d size=%d", ex, zc)
 		}
 		for i, m := range ms {
+			if !sampled(len(ms), i) {
+				continue
+			}
 			g := one(n.read([][]byte{[]byte("zscore"), []byte(key), m}))
 			sameScore := g.k == 'b' && bytes.Equal(g.b, zr[2*i+1])
 			if g.k == 'b' && !sameScore { // "-0" and "0" are the same score: compare as numbers
